@@ -292,15 +292,19 @@ Definition sitem_accepts (i : sitem) (c : N) : bool :=
 (* stuff = pat[i:j] -> the character class.  GSet false [] is '(?!)', GSet true [] is '.'.
    When the pattern has no leading '!' but removing empty ranges leaves a '!' in front, translate()
    still reads it as the negation sign ('[b-a!x]' = '[^x]', '[b-a!-z]' = '[^-z]'). *)
+Definition set_token_pos (its : list sitem) : gtok :=
+  match its with
+  | SLit x :: r => if x =? ch_bang then GSet true r else GSet false its
+  | SRange lo hi :: r =>
+      if lo =? ch_bang then GSet true (SLit ch_hyphen :: SLit hi :: r) else GSet false its
+  | [] => GSet false []
+  end.
 Definition set_token (body : pstr) : gtok :=
   match body with
-  | 33 :: core => GSet true (filter sitem_nonempty (set_items core))
-  | _ =>
-      match filter sitem_nonempty (set_items body) with
-      | SLit 33 :: r => GSet true r
-      | SRange 33 hi :: r => GSet true (SLit ch_hyphen :: SLit hi :: r)
-      | its => GSet false its
-      end
+  | c :: core =>
+      if c =? ch_bang then GSet true (filter sitem_nonempty (set_items core))
+      else set_token_pos (filter sitem_nonempty (set_items body))
+  | [] => GSet false []
   end.
 
 (* characters up to (excluding) the first ']' ; None when there is none *)
